@@ -67,8 +67,6 @@ Sound(d, cls, ps, excuseF6) ==
      /\ (cls = d.cls /\ ps = d.ps) => o.t = "inst"
 RestoreSound      == \A d \in disk : \A cls \in Classes, ps \in MC_ParamSets : Sound(d, cls, ps, FALSE)
 RestoreSoundButF6 == \A d \in disk : \A cls \in Classes, ps \in MC_ParamSets : Sound(d, cls, ps, TRUE)
-DbgBad == {t \in {<<d, cls, k>> : d \in disk, cls \in Classes, k \in DOMAIN Family} : ~Sound(t[1], t[2], Family[t[3]], TRUE)}
-Dbg == DbgBad = {} \/ PrintT(<<"BAD", {<<t[1].cls, t[2], t[3]>> : t \in DbgBad}, {<<k2, d.ps = Family[k2]>> : d \in disk, k2 \in DOMAIN Family}>>)
 (* the family really separates everything but the generator                    *)
 ASSUME \A k1, k2 \in DOMAIN Family : k1 # k2 => Family[k1] # Family[k2]
 =============================================================================
